@@ -957,7 +957,8 @@ fn c07_case(ctx: &Ctx, st: &mut C07Stats, path: &[Vec<u8>], multi: bool, raw0: &
     if ops.is_empty() {
         // (w = 2, 3: every entry the view shows is written again with its own value, and removed -
         // a write that would change nothing is a write all the same)
-        let shown: Vec<(Vec<u8>, Vec<u8>)> = view(&app, path, multi).range(None, None, Order::Ascending).collect();
+        // (a view whose iteration panics is judged by the reads above; nothing to rewrite then)
+        let shown: Vec<(Vec<u8>, Vec<u8>)> = catch(|| view(&app, path, multi).range(None, None, Order::Ascending).collect()).unwrap_or_default();
         for w in 0..4 {
             if w >= 2 && shown.is_empty() {
                 continue;
